@@ -84,7 +84,8 @@ class Evaluator:
         self._memo: Dict[tuple, T] = {}
         self.term_type: Dict[int, ClassInfo] = {}  # types of params etc.
         self.callback_params: set = set()
-        self.projection_of: Dict[int, List[T]] = {}  # ids of param-bound terms entered via combinators
+        self.projection_of: Dict[int, List[T]] = {}
+        self.ext_calls: List[tuple] = []  # ids of param-bound terms entered via combinators
 
     # ------------------------------------------------------------------ helpers
     def opaque(self, reason: str, node=None, frame: Optional[Frame] = None) -> T:
@@ -119,7 +120,7 @@ class Evaluator:
             return self.tree.classes.get(t.args[0])
         if k == "update":
             return self.typeof(t.args[0])
-        if k in ("elem", "batched", "loopin", "leaf"):
+        if k in ("elem", "batched", "loopin", "leaf", "copy"):
             return self.typeof(t.args[0])
         if k == "loop":
             return self.typeof(t.args[0]) or self.typeof(t.args[1])
@@ -146,8 +147,22 @@ class Evaluator:
         return None
 
     # ------------------------------------------------------------------ term constructors
+    def mk_copy(self, v: T) -> T:
+        """A fresh container holding the same leaves as v (dataclasses.replace, .replace, JAX
+        unflattening of operands into combinator callbacks)."""
+        if v.kind in ("construct", "copy", "const", "ext", "cls", "mod", "fn", "tuple", "list", "dict", "call",
+                      "bin", "cmp", "un", "batched", "elem", "loopin", "leaf", "index", "opaque"):
+            return v
+        if v.kind == "choice" and v.args[0] != "where":
+            return self.mk_choice(v.args[0], v.args[1], [self.mk_copy(a) for a in v.args[2]])
+        if v.kind == "phi":
+            return self.mk_phi([self.mk_copy(a) for a in v.args[0]])
+        return mk("copy", v)
+
     def mk_attr(self, v: T, name: str, frame: Optional[Frame] = None) -> T:
         k = v.kind
+        if k == "copy":
+            return self.mk_attr(v.args[0], name, frame)
         if k == "construct":
             for n, val in v.args[1]:
                 if n == name:
@@ -267,6 +282,8 @@ class Evaluator:
         return mk("choice", how, pred, tuple(alts))
 
     def mk_proj(self, v: T, i: int, n: Optional[int] = None) -> T:
+        if v.kind == "copy":
+            v = v.args[0]
         k = v.kind
         if k in ("tuple", "list"):
             items = v.args[0]
@@ -291,6 +308,8 @@ class Evaluator:
         return self._proj_of(mk("proj", v, i), v)
 
     def mk_index(self, v: T, idx: T) -> T:
+        if v.kind == "copy":
+            v = v.args[0]
         if idx.kind == "const" and isinstance(idx.args[0], int) and not isinstance(idx.args[0], bool):
             if v.kind in ("tuple", "list"):
                 items = v.args[0]
